@@ -100,6 +100,17 @@ def discover():
             if classify(r, N, None, None) != "array":
                 continue
             entries.append(dict(subject="func", name=f, args=list(sig), kind="array", result_class=type(r).__name__))
+            # every masked / direct combination of the array arguments (each is a separate branch of the dispatcher)
+            pos = [j for j, k in enumerate(sig) if k.startswith("arr:")]
+            for bits in range(1, 1 << len(pos)):
+                sig2 = list(sig)
+                for q, j in enumerate(pos):
+                    if bits >> q & 1:
+                        sig2[j] = "mask:" + sig[j][4:]
+                args2 = [build_arg(k, N, 3 + j, 4 + j)[0] for j, k in enumerate(sig2)]
+                ok2, r2 = try_call(getattr(imath, f), args2)
+                if ok2 and classify(r2, N, None, None) == "array":
+                    entries.append(dict(subject="func", name=f, args=sig2, kind="array", result_class=type(r2).__name__))
     # ---- scalar-object methods taking an array
     scal = [n for n in dir(imath) if isinstance(getattr(imath, n), type) and not n.endswith(("Array", "Array2D", "Matrix")) and not n.startswith("_")]
     for K in sorted(scal):
@@ -174,6 +185,20 @@ def add_oracles(entries):
                 r0 = out0["result"] if e["kind"] == "array" else out0["self_after"]
                 r1 = out1["result"] if e["kind"] == "array" else out1["self_after"]
                 e["self_masked_ok"] = (r0 == r1 and r0 is not None)
+                # in-place operator through a masked subject with a right-hand side of the UNMASKED length
+                e["rhs_full_ok"] = False
+                if e["self_masked_ok"] and e["name"].startswith("__i") and len(e["args"]) == 1 and e["args"][0].startswith("arr:"):
+                    try:
+                        out2, se2, ae2 = evaluate(e, N + 2, 3, 4, True, rhs_full=True)
+                        r2 = out2["result"] if e["kind"] == "array" else out2["self_after"]
+                        if e["scalar_oracle"] in ("exact", "approx"):
+                            exp = [scalar_expected(e, se2, ae2, e["args"], i) for i in range(N + 2)]
+                            e["rhs_full_ok"] = all(approx_equal(g, x) for g, x in zip(r2, exp))
+                        else:
+                            e["rhs_full_ok"] = r2 is not None and len(r2) == N + 2
+                    except BaseException as ex2:  # noqa
+                        if isinstance(ex2, (KeyboardInterrupt, SystemExit)):
+                            raise
             except BaseException as ex:  # noqa
                 if isinstance(ex, (KeyboardInterrupt, SystemExit)):
                     raise
@@ -241,7 +266,46 @@ def discover_grid():
     return out
 
 
+def ctor_expected(cls, comp, k, elems):
+    """scalar construction of element type of `cls` from the i-th elements of the argument arrays"""
+    E = getattr(imath, ARR[cls]["elem"])
+    return repr(E(*elems))
+
+
+def discover_ctors():
+    out = []
+    for cls in ARR_NAMES:
+        T = ARR[cls]["T"]
+        if not ARR[cls].get("elem"):
+            continue
+        for comp in ARR_NAMES:
+            if comp == cls:
+                continue
+            for k in (1, 2, 3, 4, 6, 9, 16):
+                try:
+                    args = [build_array(comp, 5, j + 1, j + 2, signed=False)[0] for j in range(k)]
+                    r = T(*args)
+                    if not (hasattr(r, "__len__") and len(r) == 5 and type(r).__name__ == cls):
+                        continue
+                except BaseException as e:  # noqa
+                    if isinstance(e, (KeyboardInterrupt, SystemExit)):
+                        raise
+                    continue
+                rel = "none"
+                try:
+                    ok = all(repr(r[i]) == ctor_expected(cls, comp, k, [a_[i] for a_ in args]) for i in range(5))
+                    rel = "exact" if ok else "none"
+                except BaseException as e:  # noqa
+                    if isinstance(e, (KeyboardInterrupt, SystemExit)):
+                        raise
+                out.append(dict(cls=cls, comp=comp, k=k, scalar_oracle=rel))
+    return out
+
+
 if __name__ == "__main__":
+    cents = discover_ctors()
+    json.dump(cents, open(os.path.join(os.path.dirname(os.path.abspath(__file__)), "c20_catalogue_ctor.json"), "w"), indent=0)
+    print(len(cents), "array constructors from arrays;", sum(1 for e in cents if e["scalar_oracle"] == "exact"), "with scalar oracle")
     gents = discover_grid()
     gdst = os.path.join(os.path.dirname(os.path.abspath(__file__)), "c20_catalogue_grid.json")
     json.dump(gents, open(gdst, "w"), indent=0)
